@@ -4,7 +4,7 @@ from vf.runner import Inst
 
 PROPERTY = 'C02'
 LEVEL = 'model_checking'
-BOUNDS = {'quick': dict(types='SecFxp(8,4)', ops='trunc, mul (secure, public int, public float 0.75/1.5/-2.25), + - neg, < <= == (scaled ints), x**2, in_prod of 2, scalar_mul'),
+BOUNDS = {'quick': dict(types='SecFxp(8,4)', ops='trunc, mul (secure, public int, public float 0.75/1.5/-2.25), + - neg, < <= == (scaled ints), x**2, in_prod of 2, scalar_mul, prod of 3-4 with mixed integral flags (patterns NIN, INNI; non-integral operands in [-1,1], integral in [-2,2], coarse bound)'),
           'thorough': dict(types='SecFxp(8,4), SecFxp(12,6), SecFxp(16,8)', ops='as quick plus x**3, prod of 3')}
 OUTSIDE = ['division and reciprocal: the stated bound 16(1+|x|) units does not hold for small |y| on the unchanged code (error about |x|/(2|y|) units, reported by an independent '
            'reviewer and reproduced: 50 / 2^-6 with SecFxp(32,16) is off by 1600 units); the Newton iteration _rec/_norm is not encoded -- not claimed',
@@ -18,7 +18,7 @@ LEVEL_NOTE = 'Trusted: z3, shadow-int engine, ideal random_bits. Division/recipr
 
 def _k(env, l, f, **kw):
     from vf import l2
-    k = l2.L2(env, ideal_zero_test=env.params.get('what') != 'prod', **kw)
+    k = l2.L2(env, ideal_zero_test=env.params.get('what') not in ('prod', 'prod_flags'), **kw)
     secfxp = k.mpc.SecFxp(l, f)
     return k, secfxp
 
@@ -86,6 +86,34 @@ def h_mul(env):
         env.assume((a * b >= -h * F) & (a * b < h * F), note='in range')
         z = k.sval(mpc.prod([x, y]))
         env.check('prod_within_one_unit', (z * F - a * b < F) & (a * b - z * F < F))
+    elif what == 'prod_flags':
+        # product tree with mixed integral / non-integral operands (public 'integral' flags steer the >>f shortcut): pattern over {N, I}
+        pat = P['pattern']
+        vals, xs = [], []
+        for i, c in enumerate(pat):
+            if i == 0:
+                v = a if c == 'N' else None
+            if c == 'I':
+                bi = env.fresh(f'i{i}', -2, 3)
+                vals.append(bi * F)
+                xs.append(secfxp(secfxp.field(bi * F), integral=True))
+            elif i == 0:
+                vals.append(a)
+                xs.append(x)
+            else:
+                vi, xi = _inp(env, secfxp, f'n{i}', -F, F + 1)
+                vals.append(vi)
+                xs.append(xi)
+        if pat[0] == 'N':
+            env.assume((a >= -F) & (a <= F), note='non-integral operands in [-1, 1], integral ones in [-2, 2]: every partial product stays in range')
+        z = k.sval(mpc.prod(xs))
+        exact = 1
+        for v in vals:
+            exact = exact * v               # in units of 2^-(f*len)
+        nN = sum(1 for c in pat if c == 'N')
+        D = F ** (len(pat) - 1)
+        # every truncation contributes at most one unit, scaled by the remaining factors (|.| <= 4): a coarse bound that garbage cannot meet
+        env.check('prod_flags_within_bound', (z * D - exact < 16 * nN * D) & (exact - z * D < 16 * nN * D))
     elif what == 'schur':
         b, y = _inp(env, secfxp, 'b')
         env.assume((a * b >= -h * F) & (a * b < h * F), note='in range')
@@ -199,6 +227,8 @@ def instances(tier):
         for w in ('prod', 'schur', 'matrix', 'gauss'):
             out.append(Inst(f'{w}[{l}:{f}]', h_mul, dict(l=l, f=f, what=w), timeout=1800, goal_timeout_ms=240000))
         out.append(Inst(f'linear[{l}:{f}]', h_linear, dict(l=l, f=f), timeout=900))
+        for pat in (('NIN', 'INNI') if tier == 'quick' else ('NIN', 'INNI', 'ININ', 'NIIN', 'NNI', 'IIN')):
+            out.append(Inst(f'prod_flags[{l}:{f},{pat}]', h_mul, dict(l=l, f=f, what='prod_flags', pattern=pat), timeout=1800, goal_timeout_ms=240000))
     for op in ('lt', 'ge', 'eq'):
         out.append(Inst(f'cmp.{op}[4:2]', h_cmp, dict(l=4, f=2, op=op), timeout=1800, max_paths=20000))
     for prss in ((False,) if tier != 'quick' else ()):     # thorough only: solver time varies 5..60 s with machine load (per-share division by 2^f); PRSS variant: per-share division by 2^f leaves goals the solver does not decide (see DESIGN.md, denominators)
